@@ -9,7 +9,11 @@ Areas (harness go/cmd/c02):
   f64   `f64op <op> <bits> <bits>`: the binary64 model itself vs the hardware (add sub mul div math.Mod neg
         float64(uint64) float64(int64) uint64(f) int64(f) comparisons Nextafter-toward-zero)
   glue  implementation-side identity oracle: fmt verbs, encoding/json, yaml.v3, MarshalText, Scan, AsBigFloat against
-        math/big renderings of the same value (no Lean model)
+        math/big renderings of the same value (no Lean model); every rendering of Format is scanned back with the
+        matching verb, %v, Sscan and Fscan: Scan(token) == FromString(token), identical value for self-describing texts
+  scan  fmt.Scanner entry points (Uint128.Scan / Int128.Scan): `u|i fromstring <hex token>` answered by the model's
+        fromString and, on the implementation side, by Sscan / Sscanf(any verb) / Sscanln / Fscan / Fscanf around the
+        token (leading blanks, separators, a following token that must stay readable)
 """
 
 import re
@@ -46,8 +50,9 @@ def run(ctx):
         "big.Word only; the intSize == 32 branches are not modelled); big.Int.SetString(s, 0) and big.Rat.SetString "
         "are transcribed from go1.24.2 math/big (natconv.go, ratconv.go) as scanners on bytes",
         "String/MarshalText/MarshalJSON/MarshalYAML: decimal digit generation (strconv.FormatUint, big.Int.String) is "
-        "modelled by Conv.natDigits; fmt.Formatter/Scanner, encoding/json and yaml.v3 plumbing is covered by the "
-        "implementation-side oracle `glue` only",
+        "modelled by Conv.natDigits; fmt.Formatter, encoding/json and yaml.v3 plumbing is covered by the "
+        "implementation-side oracle `glue` only; fmt.Scanner (Scan) is modelled as `one blank-delimited token, verb "
+        "ignored, FromString of the token` and compared in the area `scan` (tokenisation itself is fmt's)",
         "the float range constants of package num are read through a `//go:build verif` accessor injected by -overlay "
         "(go/overlay/c02_consts.go) and compared with the model's constants (line `consts`); /repo is not modified",
         "AsFloat64 (sign and one-ulp clauses) is proved for all 2^128 values of both types over GoSem.F64: the three "
@@ -86,5 +91,10 @@ def run(ctx):
              trivial=lambda l, o: False, tagger=_tag,
              theorem="the binary64 model GoSem.F64 differs from the hardware on this operation",
              what="validation of the float model that the C02 float theorems are stated over")
+    ctx.diff(area="scan", driver="drv_c02", n={"quick": 60000, "thorough": 1500000},
+             trivial=lambda l, o: False, tagger=lambda l, o: "scan." + ("ok" if o.startswith("ok") else "err"),
+             theorem="C02.fromString_spec / fromString_rejects (model = grammar); Scan reads one blank-delimited token, "
+                     "ignores the verb and must give what FromString gives for that token; impl != model on this input",
+             what="fmt.Scanner entry points Sscan/Sscanf/Sscanln/Fscan/Fscanf vs the model's fromString of the token")
     ctx.impl_oracle("glue", n={"quick": 8000, "thorough": 300000},
                     label="fmt/json/yaml/text/Scan/big.Float renderings equal math/big's and load back identically")
